@@ -3,7 +3,8 @@
    Only statements closed by `exact`.  The estimator theorems are about the definitions regenerated from
    /repo/cola/libavoid/makepath.cpp by tools/cpp2v.py (Gen/Bends.v); proofs in Avoid/Bends.v, Avoid/BendsSpec.v,
    Avoid/GridOracle.v. *)
-From Adapt Require Import Num.Qaux Avoid.BendsSpec Gen.Geometry Gen.Bends Avoid.Bends Avoid.GridOracle.
+From Adapt Require Import Num.Qaux Avoid.BendsSpec Gen.Geometry Gen.Bends Avoid.Bends Avoid.GridOracle
+     Avoid.GridOracleOpt.
 Local Open Scope Q_scope.
 
 (* The property's last sentence, at full strength: for all rational curr <> dest and all single directions, every
@@ -82,3 +83,34 @@ Theorem C05_grid_oracle_partial rs src dst pen fuel c p :
   valid_orth_route rs src dst p /\ c = route_cost pen p.
 Proof. exact (oracle_sound rs src dst pen fuel c p). Qed.
 Print Assumptions C05_grid_oracle_partial.
+
+(* ---- optimality of the grid oracle over the grid graph it searches (part (a) of the list above; Avoid/GridOracleOpt.v).
+   States: (Hanan-grid point, direction 0 N / 1 E / 2 S / 3 W).  gstep: a move to the neighbouring grid line in the
+   current direction costs the distance and is allowed iff the grid segment does not run through the interior of the
+   union of the rectangles (hblocked / vblocked); a turn to a perpendicular direction costs pen and is allowed
+   everywhere except at dst.  gwalk = arbitrary finite walks.  So: the oracle's cost is <= length + pen * bends of
+   every orthogonal path ON THAT GRID that avoids the rectangle interiors, for every allowed start / arrival direction.
+   Still assumed, not proved (b): HANAN-GRID SUFFICIENCY - some optimal orthogonal obstacle-avoiding path of the plane
+   runs on the Hanan grid of the rectangle sides and the endpoints (classical); and (c) as above. *)
+Theorem C05_grid_oracle_optimal rs src dst pen sd ad fuel k p :
+  (0 <= pen)%Z ->
+  oracle_dirs rs src dst pen sd ad fuel = OR_cost k p ->
+  forall d0 d1 C, (0 <= d0 <= 3)%Z -> dir_allowed sd d0 = true -> dir_allowed ad d1 = true ->
+    gwalk rs (hanan_xs rs src dst) (hanan_ys rs src dst) pen dst (src, d0) (dst, d1) C -> (k <= C)%Z.
+Proof. exact (fun H => grid_oracle_optimal rs src dst pen sd ad fuel H k p). Qed.
+Print Assumptions C05_grid_oracle_optimal.
+
+Theorem C05_grid_oracle_unreachable rs src dst pen sd ad fuel :
+  (0 <= pen)%Z ->
+  oracle_dirs rs src dst pen sd ad fuel = OR_unreachable ->
+  forall d0 d1 C, (0 <= d0 <= 3)%Z -> dir_allowed sd d0 = true -> dir_allowed ad d1 = true ->
+    ~ gwalk rs (hanan_xs rs src dst) (hanan_ys rs src dst) pen dst (src, d0) (dst, d1) C.
+Proof. exact (grid_oracle_unreachable rs src dst pen sd ad fuel). Qed.
+Print Assumptions C05_grid_oracle_unreachable.
+
+Theorem C05_grid_oracle_optimal_plain rs src dst pen fuel k p :
+  (0 <= pen)%Z -> oracle rs src dst pen fuel = OR_cost k p ->
+  forall d0 d1 C, (0 <= d0 <= 3)%Z -> (0 <= d1 <= 3)%Z ->
+    gwalk rs (hanan_xs rs src dst) (hanan_ys rs src dst) pen dst (src, d0) (dst, d1) C -> (k <= C)%Z.
+Proof. exact (grid_oracle_optimal_plain rs src dst pen fuel k p). Qed.
+Print Assumptions C05_grid_oracle_optimal_plain.
